@@ -12,6 +12,9 @@ for f in sorted(glob.glob('/verif/checks/C*.json')):
     if not m:
         continue
     claimed.add(pid)
+    hs = json.load(open(f))['harnesses']
+    inventory = " Obligations executed by this check (harness: what it decides) — " + "; ".join(
+        f"[{h['obligation']}] {h['func']}: {h.get('what','')}" for h in hs)
     checks.append({
         "property_id": pid,
         "quick_cmd": f"./bin/verif check {pid} --tier quick",
@@ -20,7 +23,7 @@ for f in sorted(glob.glob('/verif/checks/C*.json')):
         "replay_cmd_template": "./bin/verif replay {path}",
         "engine": "symgo",
         "level_claimed": {"category": "other", "text": m['text'], "design_ref": m.get('design_ref', 'DESIGN.md section 8')},
-        "level_note": m['note'],
+        "level_note": m['note'] + inventory,
         "technique": m.get('technique', 'bounded symbolic execution of the real functions from go/ssa + SMT (z3 / cvc5), counterexamples replayed natively'),
     })
 na = []
